@@ -244,8 +244,18 @@ func checksumValue(value []byte) (uint64, error) {
 		return 0, err
 	}
 
-	return crc.Sum64(), nil
+	sum := crc.Sum64()
+	// an index entry with checksum zero means "no checksum recorded" (empty values, tables of older formats) and is
+	// accepted whatever is read. A non-empty value whose CRC happens to be zero must not fall into that exemption.
+	if sum == 0 && len(value) > 0 {
+		sum = zeroChecksumSubstitute
+	}
+
+	return sum, nil
 }
+
+// zeroChecksumSubstitute is recorded for a non-empty value whose CRC-64 is zero
+const zeroChecksumSubstitute = ^uint64(0)
 
 // NewSSTableReader creates a new reader. The sstable base path is mandatory:
 // > sstables.NewSSTableReader(sstables.ReadBasePath("some_path"))
